@@ -29,8 +29,9 @@ pub fn sim_case(max_trace: usize, max_machines: usize, zero: bool, with_pps: boo
         sim_fracs(),
         seed(),
         (any::<bool>(), any::<bool>(), 200usize..1500),
+        text_extras(),
     )
-        .prop_map(|(trace, delay_ns, pps, client, server, fracs, seed, (continue_after, hand_queue, iters))| SimCase {
+        .prop_map(|(trace, delay_ns, pps, client, server, fracs, seed, (continue_after, hand_queue, iters), (pad_lines, line_style))| SimCase {
             trace,
             delay_ns,
             pps,
@@ -44,6 +45,8 @@ pub fn sim_case(max_trace: usize, max_machines: usize, zero: bool, with_pps: boo
             only_client: false,
             only_network: false,
             hand_queue,
+            pad_lines,
+            line_style,
         })
         .boxed()
 }
